@@ -67,6 +67,15 @@ Theorem C08_subproblem_solvers_skip_nonfinite_models : subproblem_guarded = true
 Proof. vm_compute. reflexivity. Qed.
 Theorem C08_user_exceptions_propagate : exception_transparent = true.
 Proof. vm_compute. reflexivity. Qed.
+(* scipy's norm raises ValueError on a non-finite gradient (overflow-sized residuals): where solve_main takes it to form tau,
+   the call sits in a try whose handler gives tau a value *)
+Definition tau_norm_is_caught : bool :=
+  let tw := filter (fun a => streq (a_func a) "solve_main" && streq (a_name a) "tau") T_assigns in
+  forallb (fun a => negb (match index 0 "LA.norm(" (a_value a) with Some _ => true | None => false end) || has_guard (a_guards a) true "try") tw &&
+  existsb (fun a => match index 0 "LA.norm(" (a_value a) with Some _ => true | None => false end) tw &&
+  existsb (fun a => has_guard (a_guards a) true "except ValueError" && streq (a_value a) "1.0") tw.
+Theorem C08_norm_of_a_nonfinite_gradient_is_caught : tau_norm_is_caught = true.
+Proof. vm_compute. reflexivity. Qed.
 Theorem C08_nan_and_success_exits : nan_exit_ok = true /\ success_override_ok = true.
 Proof. vm_compute. split; reflexivity. Qed.
 (* regions: shared with C04 -- every path after an evaluation commits the point, or is the NaN path, or raises *)
